@@ -770,7 +770,9 @@ fn gen_metrics(idx: &[usize]) -> Option<Case> {
                     subtables: vec![IvData { region_idx: (1..=nr).collect(), rows: (0..5).map(|q| (0..regions.len()).map(|k| md(q + 5, k, true)).collect()).collect(), word_count: 0, long_words: false }],
                     regions_last: false,
                 },
-                records: tags.iter().enumerate().map(|(q, t)| (tag(t), 0, q as u16)).collect(),
+                // 'hcld' carries the "no variation data" index 0xFFFF/0xFFFF: it stays at its default and the records behind it in
+                // tag order (strs, unds, zzzz) are applied as usual
+                records: tags.iter().enumerate().map(|(q, t)| if *t == b"hcld" { (tag(t), 0xFFFF, 0xFFFF) } else { (tag(t), 0, q as u16) }).collect(),
                 record_size: 8,
             })
         }
